@@ -152,9 +152,14 @@ func goValue(i *interpreter, v value) interface{} {
 		if x.t == nil {
 			return nil
 		}
-		// error / Stringer: call the method in the interpreter when concrete (not re-entrantly:
-		// a String method that formats its own receiver with %d must not recurse)
-		if !containsSym(x.v) && i.fmtDepth == 0 {
+		// error / Stringer: call the method in the interpreter when concrete and when the verb
+		// is one for which fmt consults it (%v %s %q %x %X; fmt.Sprint). A method that formats
+		// its own receiver with such a verb recurses without end in Go (fatal stack overflow):
+		// reported as an UNWIND finding.
+		if !containsSym(x.v) && !i.fmtRaw {
+			if i.fmtDepth > 40 {
+				panic(pathAbort{"UNWIND"})
+			}
 			i.fmtDepth++
 			defer func() { i.fmtDepth-- }()
 			if m := methodOf(i, x.t, "Error"); m != nil {
@@ -248,11 +253,56 @@ func safeCallString(i *interpreter, m *ssa.Function, recv value) (s string, ok b
 	return "", false
 }
 
-func fmtArgs(i *interpreter, v value) []interface{} {
+func fmtArgs(i *interpreter, v value) []interface{} { return fmtArgsFor(i, "", v) }
+
+// fmtArgsFor converts the arguments of a formatting call; with a format string, an argument
+// consumed by a verb other than v s q x X is converted without consulting String / Error.
+func fmtArgsFor(i *interpreter, format string, v value) []interface{} {
 	var out []interface{}
+	verbs := fmtVerbs(format)
 	if sl, ok := v.([]value); ok {
-		for _, e := range sl {
+		for k, e := range sl {
+			raw := false
+			if format != "" && k < len(verbs) {
+				switch verbs[k] {
+				case 'v', 's', 'q', 'x', 'X':
+				default:
+					raw = true
+				}
+			}
+			saved := i.fmtRaw
+			i.fmtRaw = raw
 			out = append(out, goValue(i, e))
+			i.fmtRaw = saved
+		}
+	}
+	return out
+}
+
+// fmtVerbs lists the verb consuming each successive argument (explicit argument indexes and
+// * widths are rare in the code under test: they make the rest of the list 'v').
+func fmtVerbs(format string) []byte {
+	var out []byte
+	for k := 0; k < len(format); k++ {
+		if format[k] != '%' {
+			continue
+		}
+		k++
+		for k < len(format) && strings.IndexByte("+-# 0123456789.", format[k]) >= 0 {
+			k++
+		}
+		if k >= len(format) {
+			break
+		}
+		switch format[k] {
+		case '%':
+		case '[', '*':
+			for len(out) < 16 {
+				out = append(out, 'v')
+			}
+			return out
+		default:
+			out = append(out, format[k])
 		}
 	}
 	return out
@@ -269,7 +319,8 @@ func fmtString(i *interpreter, v value) string {
 }
 
 func libSprintf(i *interpreter, fr *frame, a []value) (value, bool) {
-	return fmt.Sprintf(fmtString(i, a[0]), fmtArgs(i, a[1])...), true
+	f := fmtString(i, a[0])
+	return fmt.Sprintf(f, fmtArgsFor(i, f, a[1])...), true
 }
 
 func libSprint(i *interpreter, fr *frame, a []value) (value, bool) {
@@ -277,13 +328,15 @@ func libSprint(i *interpreter, fr *frame, a []value) (value, bool) {
 }
 
 func libPrintf(i *interpreter, fr *frame, a []value) (value, bool) {
-	s := fmt.Sprintf(fmtString(i, a[0]), fmtArgs(i, a[1])...)
+	f := fmtString(i, a[0])
+	s := fmt.Sprintf(f, fmtArgsFor(i, f, a[1])...)
 	i.ps.trace = append(i.ps.trace, "OUT:"+s)
 	return tuple{len(s), iface{}}, true
 }
 
 func libErrorf(i *interpreter, fr *frame, a []value) (value, bool) {
-	msg := fmt.Sprintf(fmtString(i, a[0]), fmtArgs(i, a[1])...)
+	f := fmtString(i, a[0])
+	msg := fmt.Sprintf(f, fmtArgsFor(i, f, a[1])...)
 	en := i.prog.ImportedPackage("errors").Func("New")
 	return callSSA(i, fr, token.NoPos, en, []value{msg}, nil), true
 }
